@@ -157,7 +157,7 @@ def run(ck, only=None):
     wd = ck.wd
     versions = [50] + list(range(51, 87)) + [NIGHTLY]
     editions = [None, "2018", "2021", "2024"]
-    hnames = list(HEADERS) if ck.tier == "thorough" else ["all", "corestr", "abi", "str"]
+    hnames = list(HEADERS) if ck.tier == "thorough" else ["all", "corestr", "abi", "abiptr", "str"]
     jobs, meta = [], {}
     for hn in hnames:
         src, flags = HEADERS[hn]
@@ -231,7 +231,7 @@ def run(ck, only=None):
     # rustc 1.95 must accept every stable output (nightly-only constructs excluded)
     comp = []
     for (hn, v, ed), t in texts.items():
-        if v == NIGHTLY or hn == "abi" or (ck.tier == "quick" and hn != "all"):  # thiscall/efiapi/vectorcall do not exist on the host target
+        if v == NIGHTLY or hn in ("abi", "abiptr") or (ck.tier == "quick" and hn != "all"):  # thiscall/efiapi/vectorcall do not exist on the host target
             continue
         if ck.tier == "quick" and v not in (51, 58, 59, 63, 64, 70, 76, 77, 81, 82, 85, 86):
             continue
